@@ -25,6 +25,11 @@ type Config struct {
 	StepBudget      int
 	DepthBudget     int
 	BudgetViolation bool // exceeding a budget is a candidate violation (termination properties)
+	// FocusProperty: when set (gosym check <ID>), assertions whose id does not start with "<ID>." are not
+	// evaluated at all. A harness hosts assertions of several properties; a violated assertion ends its path
+	// (execution continues only under the asserted condition), so without this an earlier assertion of
+	// another property would mask the later assertions of the property being checked.
+	FocusProperty string
 	SolverBin       string
 	SolverTimeoutMs int
 	Workers         int
@@ -71,6 +76,7 @@ type AssertStat struct {
 	Discharged int `json:"discharged"` // solver said unsat for PC ∧ ¬c
 	Violated   int `json:"violated"`
 	Unknown    int `json:"unknown"`
+	Skipped    int `json:"skipped,omitempty"` // belongs to another property's check (FocusProperty)
 }
 
 // Report aggregates a harness run.
@@ -316,6 +322,7 @@ type Exec struct {
 	sampleModels []SampleModel
 	extraNotes map[string]int
 	ptrIDs     map[interface{}]int // fake addresses for %p
+	pools      map[*Val][]Val      // sync.Pool contents (LIFO)
 }
 
 func (ex *Exec) noteFunc(fn *ssa.Function, kind string) {
@@ -634,6 +641,10 @@ func (ex *Exec) assert(id string, c *Term) {
 		st = &AssertStat{}
 		ex.asserts[id] = st
 	}
+	if fp := ex.eng.Cfg.FocusProperty; fp != "" && !strings.HasPrefix(id, fp+".") {
+		st.Skipped++
+		return
+	}
 	if c.IsTrue() {
 		st.Trivial++
 		return
@@ -910,6 +921,7 @@ func (rep *Report) merge(ex *Exec) {
 		r.Discharged += st.Discharged
 		r.Violated += st.Violated
 		r.Unknown += st.Unknown
+		r.Skipped += st.Skipped
 	}
 	for id, n := range ex.reach {
 		rep.Reach[id] += n
@@ -983,7 +995,11 @@ func (eng *Engine) runExec(ex0 *Exec, p *pending) (ex *Exec) {
 			if eng.Cfg.BudgetViolation {
 				ex.addViolation("budget", "termination", r.what, ex.model)
 			} else {
-				ex.incon = append(ex.incon, "budget: "+r.what)
+				msg := "budget: " + r.what
+				if eng.Cfg.Verbose {
+					msg += fmt.Sprintf(" stack %v notes %v", ex.stack(), ex.notes)
+				}
+				ex.incon = append(ex.incon, msg)
 			}
 		case targetPanic:
 			msg := r.fault
